@@ -114,6 +114,11 @@ RefRead(s, o) ==
          ELSE <<"ok", Eval(s, s.onode[o], s.envAtStart)>>
     [] OTHER -> <<"err", "Disallowed">>
 
+\* C13: after a caught panic inside stabilise every read fails; after a panic in a handler
+\* (propagation finished) reads show the fully propagated values
+RefReadS(s, o) ==
+  IF s.status = "stabilising" THEN <<"err", "CurrentlyStabilising">> ELSE RefRead(s, o)
+
 \* C01 (and the single-snapshot half of C07)
 ObsCorrect(s) ==
   (Ok(s) /\ s.status = "idle") =>
